@@ -156,7 +156,7 @@ PROPS = {
     },
     "C16": {
         "modules": ["SxVerif.Props.C16"],
-        "components": ["exitdelay"],
+        "components": ["exitdelay", "e2edelay"],
         "trusted_base": [
             "modelled, not verified: time as a logical clock (`tick`), `time.After(d)` as a timer whose receive is enabled once clock >= creation time + d; Go channel / select / context semantics as in Model/Engine.lean (see C08)",
             "the packet receiver is abstracted to an external producer that reads the next arrived frame only while the derived ctx is live and then calls Put (receiver loop polls ctx at the loop head; C03/C06/C20 own the frame side)",
@@ -352,7 +352,7 @@ PROPS = {
     },
     "C15": {
         "modules": ["SxVerif.Props.C15"],
-        "components": ["limiter", "parse"],
+        "components": ["limiter", "parse", "e2erate"],
         "trusted_base": [
             "modelled, not verified: go.uber.org/ratelimit v0.2.0 limiter_atomic.go (newAtomicBased, Take) as Model/Limiter.lean — one state update per Take as a function of the loaded state and the clock reading of the successful CAS iteration; time.Time/time.Duration as unbounded integers (ns since Go's zero time)",
             "Mathlib v4.33.0 (Finset.Icc cardinality, min'/max') for the order-free corollary C15_any_set only — checked by the same kernel",
